@@ -6,6 +6,7 @@ CONSTANTS
   TrimDepth = 2
   MaxSteps = 8
   WithCrash = TRUE
+  HeadInBatch = FALSE
   CrashInHeadWindow = TRUE
   SpendTrimCandidate = FALSE
 VIEW view
